@@ -45,12 +45,12 @@ theorem frame_local (s : Sys G L A O) (h : Framed s) (i : Nat) :
     cases act with
     | create j =>
       simp only [runG, restrict]
-      rw [h.1 g, ih]
+      rw [outputsOf_append, h.1 g, ih]
       by_cases hj : j = i
       · subst hj
-        simp only [if_true, lookup_update_same]
+        simp only [if_true, lookup_update_same, outputsOf_tag_same]
         cases lookup m j <;> simp [runI]
-      · simp only [hj, if_false, lookup_update_other m i j _ hj]
+      · simp only [hj, if_false, lookup_update_other m i j _ hj, outputsOf_tag_other i j hj, List.nil_append]
     | act j a =>
       simp only [runG, restrict]
       cases hl : lookup m j with
@@ -75,5 +75,16 @@ theorem frame_same (s : Sys G L A O) (h : Framed s) (i j : Nat) (acts acts' : Li
     (hv : restrict i acts = restrict j acts') :
     outputsOf i (runG s g [] acts) = outputsOf j (runG s g [] acts') := by
   rw [frame_local s h i, frame_local s h j, hv]; rfl
+
+/-- lifting preserves the frame condition -/
+theorem lift_framed (s : Sys G L A O) (h : Framed s) : Framed s.lift := by
+  refine ⟨fun g => rfl, fun g m a => ?_⟩
+  cases a with
+  | create i => exact h.1 g
+  | act i a =>
+    simp only [Sys.lift, stepG]
+    split
+    · rfl
+    · exact h.2 g _ a
 
 end Struct.Frame
